@@ -389,7 +389,7 @@ int disasm_arc(
             strcat(instruction, temp);
             break;
           case OP_H:
-            a = (opcode16 >> 5) | ((opcode16 & 0x7) << 3);
+            a = ((opcode16 >> 5) & 0x7) | ((opcode16 & 0x7) << 3);
             if (a == LIMM)
             {
               i = 100;
@@ -402,6 +402,7 @@ int disasm_arc(
             size = 6;
             immediate = READ_RAM32(address + 2);
             snprintf(temp, sizeof(temp), "0x%04x", immediate);
+            strcat(instruction, temp);
             break;
           case OP_U3:
             snprintf(temp, sizeof(temp), "%d", opcode16 & 0x7);
